@@ -249,7 +249,7 @@ Section Prog.
     accepted E (dir_const st line col args).
   Proof.
     intros (ts & ELT & H) HT HP HP1. pose proof H as [R T V C Er Gt A D L P W].
-    destruct args as [|a0 [|a1 [|a2 r]]]; try dh. destruct a0; try dh.
+    destruct args as [|a0 [|a1 [|a2 r]]]; try dh; destruct a0; try dh.
     destruct (den64 (rho ek) a1) as [w|] eqn:Dn; [|dh]. unfold define in HP1. cbn [p_env p_cur p_items] in HP1.
     destruct (AsmStmtModel.is_register s) eqn:Rg; [dh|]. destruct (env_get ek s) eqn:Eg; [dh|].
     destruct T as (tbl & p & ps & EL & EP & TE).
@@ -357,5 +357,124 @@ Section Prog.
     { rewrite HW. eexists. split; [reflexivity|]. split; [exact Er|]. split; [apply tight_append; auto|]. eapply pd_eq; [|exact HP]. reflexivity. }
     destruct Hb as [(-> & ->)|(-> & Hx)]; [exact ACC|].
     destruct (hex_decode_pairs s []) as (I1 & _). rewrite (I1 _ Hx). cbn [rev app]. exact ACC.
+  Qed.
+
+  (* ---------------- .du8 / .du16 / .du32 ---------------- *)
+  Lemma data_prog st cur ek items line col k args s' :
+    Sim E st cur ek (gdict E items) -> Tight st -> Pd E st ->
+    (match args with [a] => place (mkP1 cur ek items) (dk_size k) (IData (dk_size k) a) | _ => None end) = Some s' ->
+    (forall a it, In (a, it) (p_items s') -> pass2_item E a it <> None) ->
+    fresh_item E items (p_items s') ->
+    accepted E (dir_data dbg st line col k args).
+  Proof.
+    intros (ts & ELT & H) HT HP HP1 H2 HF. pose proof H as [R T V C Er Gt A D L P W].
+    destruct args as [|a [|a2 r]]; try dh. unfold place in HP1. cbn [p_cur p_env p_items] in HP1.
+    destruct cur as [c|]; [|dh]. destruct (c + dk_size k <=? 4294967296) eqn:Lp; [|dh].
+    inversion HP1; subst s'. cbn [p_cur p_env p_items] in *.
+    specialize (H2 c (IData (dk_size k) a) (or_introl eq_refl)). specialize (HF c (IData (dk_size k) a)).
+    cbn [pass2_item] in H2, HF.
+    destruct (den64 (rho E) a) as [w|] eqn:Dn; [|congruence]. rewrite dk_range in H2, HF.
+    destruct ((0 <=? w)%Z && (w <=? dk_max k)%Z) eqn:Rw; [|congruence]. clear H2.
+    rewrite <- le_n_le_bytes in HF.
+    assert (HF' : forall x, c <= x -> x < c + dk_size k -> d_get (gdict E items) x = None)
+      by (intros x X1 X2; apply (HF _ x eq_refl eq_refl X1); rewrite len_le_n'; exact X2).
+    destruct C as (sg & EA & HI & Ea). destruct T as (tbl & p & ps & EL & EP & TE).
+    assert (Hk : 0 < dk_size k) by (destruct k; cbn; lia).
+    pose proof (cap_fresh E st c ek _ ts sg (dk_size k) H HT EA ltac:(lia) HF') as Hcap.
+    unfold dir_data. rewrite EA. rewrite (has_remaining_ok dbg _ _ _ HI).
+    destruct (dk_size k <=? s_max sg - blen sg) eqn:Lr; [|destruct HI; lia].
+    cbn [arity_check List.length Nat.eqb].
+    rewrite (curr_addr_exact _ _ HI) by lia. rewrite <- Ea.
+    unfold data_apply. cbn [de_arg de_kind de_file de_line de_col].
+    assert (WA : forall d0 data, de_addr d0 = c -> mlen data = dk_size k ->
+              write_data dbg st d0 data = Ret None (set_active st (Active (set_buf sg (s_buf sg ++ data))))).
+    { intros d0 data Ed Hl. unfold write_data. rewrite Ed, Ea, <- (curr_addr_exact _ _ HI) by lia.
+      apply write_stmt_append; auto; rewrite Hl; lia. }
+    destruct (ctx_eval_den E ek st tbl p ps EL EP TE V a w Dn) as [(ch & CE)|(a' & nm & CE)]; rewrite CE.
+    - rewrite Rw. rewrite WA by (try reflexivity; apply len_le_n'). cbn [CtxModel.bind].
+      eexists. split; [reflexivity|]. split; [exact Er|]. split; [apply tight_append; auto|]. eapply pd_eq; [|exact HP]. reflexivity.
+    - cbn [CtxModel.bind]. rewrite WA by (try reflexivity; apply len_padding). cbn [CtxModel.bind].
+      unfold add_task. cbn [local_tasks set_active]. rewrite ELT. cbn [CtxModel.bind].
+      eexists. split; [reflexivity|]. split; [exact Er|]. split; [apply (tight_eq (set_active st (Active (set_buf sg (s_buf sg ++ padding (dk_size k)))))); [reflexivity|reflexivity|apply tight_append; auto]|].
+      intros ts' Hts. cbn [local_tasks set_local_tasks] in Hts. inversion Hts; subst ts'.
+      apply Forall_app. split; [apply HP; exact ELT|]. constructor; [|constructor].
+      cbn [PendD de_set_arg de_arg]. rewrite (ctx_eval_err_den E ek st tbl p ps EL EP TE V a w a' _ Dn CE). discriminate.
+  Qed.
+
+  (* ---------------- instruction statements ---------------- *)
+  Lemma final_ev_value a w x : den64 (rho E) a = Some w -> final_ev E a = (x, SComplete) -> x = AConst w.
+  Proof.
+    intros Dw. unfold final_ev. change (fun n : str => match env_get E n with Some v => Found v | None => NotFound end) with (lkE E).
+    change AsmStmtModel.is_register with CtxModel.is_register.
+    assert (ND : no_deferred (lkE E)) by (intros s; unfold lkE; destruct (env_get E s); discriminate).
+    destruct (evaluate_den (rho E) (lkE E) CtxModel.is_register (compat_lkE E) ND (fun s v => rho_not_reg E s v) a w Dw) as [(c & ->)| ->];
+      intros H; inversion H; reflexivity.
+  Qed.
+
+  Lemma instr_prog st cur ek items line col name args s' :
+    Sim E st cur ek (gdict E items) -> Tight st -> Pd E st ->
+    stmt_ok E ek (EInstruction name args) ->
+    (match instr_size name with Some sz => place (mkP1 cur ek items) sz (IInstr name args) | None => None end) = Some s' ->
+    (forall a it, In (a, it) (p_items s') -> pass2_item E a it <> None) ->
+    fresh_item E items (p_items s') ->
+    accepted E (assemble_instr dbg st line col name args).
+  Proof.
+    intros (ts & ELT & H) HT HP OK HP1 H2 HF. pose proof H as [R T V C Er Gt A D L P W].
+    destruct (instr_size name) as [sz|] eqn:Isz; [|dh]. unfold place in HP1. cbn [p_cur p_env p_items] in HP1.
+    destruct cur as [c|]; [|dh]. destruct (c + sz <=? 4294967296) eqn:Lp; [|dh].
+    inversion HP1; subst s'. cbn [p_cur p_env p_items] in *.
+    specialize (H2 c (IInstr name args) (or_introl eq_refl)). specialize (HF c (IInstr name args)). cbn [pass2_item] in H2, HF.
+    destruct C as (sg & EA & HI & Ea). destruct T as (tbl & p & ps & EL & EP & TE).
+    destruct (template name) as [t|] eqn:Et; [|unfold instr_size in Isz; rewrite Et in Isz; dh].
+    pose proof (instr_size_isz _ _ _ Et Isz) as Hsz.
+    unfold assemble_stmt in H2, HF. rewrite Et in H2, HF.
+    destruct (assemble_args (final_ev E) false c t (mkAst args 0)) as [iF sF| | |] eqn:AF; try congruence.
+    destruct (enc_bytes iF 4) as [nF bF| |] eqn:EF; try congruence. clear H2.
+    pose proof (enc_bytes_size _ _ _ EF) as (NF & LF). pose proof (assemble_args_isz _ _ _ _ _ _ _ AF) as IF.
+    assert (Lb : mlen bF = sz) by (unfold mlen; rewrite LF; congruence).
+    assert (HF' : forall x, c <= x -> x < c + sz -> d_get (gdict E items) x = None)
+      by (intros x X1 X2; apply (HF _ x eq_refl eq_refl X1); rewrite Lb; exact X2).
+    assert (Hsz2 : 2 <= sz) by (rewrite Hsz; destruct t; cbn; lia).
+    pose proof (cap_fresh E st c ek _ ts sg sz H HT EA ltac:(lia) HF') as Hcap.
+    unfold assemble_instr. rewrite EA. rewrite (has_remaining_ok dbg _ _ _ HI).
+    destruct (2 <=? s_max sg - blen sg) eqn:Lr; [|destruct HI; lia].
+    assert (Hlt : blen sg < s_max sg) by lia.
+    rewrite (curr_addr_exact _ _ HI) by lia. rewrite <- Ea. rewrite Et.
+    unfold instr_assemble. cbn [ai_ast ai_addr ai_instr ai_file ai_line ai_col a_args].
+    rewrite (first_panic_none st args (ev_ok_st st tbl p ps EL EP)).
+    assert (CASE : (exists s1, assemble_args (instr_ev st) true c t (mkAst args 0) = COk iF s1) \/
+                   (exists a a' n, args = [a] /\ is_branch t = true /\ den64 (rho E) a' <> None /\
+                                   assemble_args (instr_ev st) true c t (mkAst args 0) = CDefer n (mkAst [a'] 0))).
+    { destruct OK as [K|[(t' & Et' & HB & HD)|(t' & Et' & HN)]].
+      - left. exists sF. apply (assemble_args_mono_on args (final_ev E) (instr_ev st) false true); [|exact AF].
+        eapply known_ev_le; eauto.
+      - rewrite Et in Et'. inversion Et'; subst t'.
+        destruct (branch_one_arg _ _ _ _ _ _ _ HB AF) as (a & ->).
+        destruct (den64 (rho E) a) as [w|] eqn:Dw; [|exfalso; apply (HD a); [now left|exact Dw]].
+        destruct (ctx_eval_den E ek st tbl p ps EL EP TE V a w Dw) as [(ch & CE)|(a' & nm & CE)].
+        + left. exists sF. apply (assemble_args_mono_on [a] (final_ev E) (instr_ev st) false true); [|exact AF].
+          intros x x' [<-|[]] Hx. rewrite (final_ev_value _ _ _ Dw Hx). unfold instr_ev. rewrite CE. reflexivity.
+        + right. exists a, a', nm. split; [reflexivity|]. split; [exact HB|].
+          split; [rewrite (ctx_eval_err_den E ek st tbl p ps EL EP TE V a w a' _ Dw CE); discriminate|].
+          apply branch_defer_fwd; [exact HB|]. unfold instr_ev. rewrite CE. reflexivity.
+      - left. rewrite Et in Et'. inversion Et'; subst t'. exists sF. rewrite <- AF. apply no_eval_indep. exact HN. }
+    destruct CASE as [(s1 & AM)|(a & a' & nm & -> & HB & Dn' & AM)]; rewrite AM; cbn [CtxModel.bind].
+    - unfold write_instr. cbn [ai_instr ai_file ai_line ai_col ai_addr]. rewrite EF.
+      rewrite Ea, <- (curr_addr_exact _ _ HI) by lia.
+      rewrite write_stmt_append; auto; [|rewrite Lb; lia|rewrite Lb; exact Hcap].
+      eexists. split; [reflexivity|]. split; [exact Er|]. split; [apply tight_append; auto|]. eapply pd_eq; [|exact HP]. reflexivity.
+    - pose proof (template_branch _ _ Et HB) as TB.
+      assert (PI : partial_instr t (mkAst [a'] 0) = t) by (destruct TB as [(cc & ->)| ->]; reflexivity).
+      destruct (branch_template_encodes t TB) as (nP & bP & EPt).
+      pose proof (enc_bytes_size _ _ _ EPt) as (LP & _).
+      unfold write_instr. cbn [ai_instr ai_file ai_line ai_col ai_addr]. rewrite PI, EPt.
+      rewrite Ea, <- (curr_addr_exact _ _ HI) by lia.
+      rewrite write_stmt_append; auto; [|rewrite len_padding; lia|rewrite len_padding; replace nP with sz by congruence; exact Hcap].
+      cbn [CtxModel.bind]. unfold add_task. cbn [local_tasks set_active]. rewrite ELT. cbn [CtxModel.bind].
+      eexists. split; [reflexivity|]. split; [exact Er|].
+      split; [apply (tight_eq (set_active st (Active (set_buf sg (s_buf sg ++ padding nP))))); [reflexivity|reflexivity|apply tight_append; auto]|].
+      intros ts' Hts. cbn [local_tasks set_local_tasks] in Hts. inversion Hts; subst ts'.
+      apply Forall_app. split; [apply HP; exact ELT|]. constructor; [|constructor].
+      cbn [PendD ai_ast]. exists a'. split; [reflexivity|exact Dn'].
   Qed.
 End Prog.
